@@ -601,6 +601,14 @@ class Interp:
                 if cv is not None:
                     ti = tinfo(lv[2], self.idx) or (32, True)
                     return const(ti[0], ti[1], cv)
+                gd = self.idx.by_id.get(lv[1])
+                gi = [c_ for c_ in children(gd) if 'kind' in c_] if isinstance(gd, dict) and gd.get('kind') == 'VarDecl' else []
+                if gi and ('const' in qt(gd) or gd.get('constexpr')):
+                    # a constant table / value at namespace, class or function-static scope: its initialiser
+                    memo = self.__dict__.setdefault('_const_globals', {})
+                    if lv[1] not in memo:
+                        memo[lv[1]] = self.expr(gi[-1], {'this': None, 'locals': {}})
+                    return memo[lv[1]]
                 raise AnalysisBroken('read of unbound variable %s at %s' % (lv[2].get('referencedDecl', {}).get('name'), pos(lv[2])))
             return env['locals'][lv[1]]
         if lv[0] == 'field':
@@ -1306,6 +1314,10 @@ class Interp:
                 if name in ('push_back', 'emplace_back'):
                     o.items.append(self.consume(self.expr(args[0], env), env))
                     return None
+                if name in ('reserve', 'shrink_to_fit'):
+                    for a_ in args:
+                        self.expr(a_, env)
+                    return None
                 if name == 'data':
                     return o
                 if name == 'at':
@@ -1364,6 +1376,16 @@ class Interp:
                     return const(1, False, int(not o))
                 if name == 'size':
                     return const(64, False, len(o))
+                if name in ('emplace', 'try_emplace') and len(args) == 2:
+                    k_ = self.expr(args[0], env)
+                    k_ = k_[1] if isinstance(k_, tuple) and k_[:1] == ('str',) else (k_.lo if isinstance(k_, IV) and k_.concrete() else None)
+                    if k_ is None:
+                        raise NeedSplit(None, 'map key not concrete at %s' % pos(n))
+                    v_ = self.consume(self.expr(args[1], env), env)
+                    fresh = k_ not in o
+                    if fresh:
+                        o[k_] = v_
+                    return ('pair', Obj('map-iterator', {'first': k_, 'second': o[k_]}, 'iterator'), const(1, False, int(fresh)))
                 raise AnalysisBroken('unmodelled map operation %s at %s' % (name, pos(n)))
             if isinstance(o, tuple) and o and o[0] == 'str' and name in ('c_str', 'data') and self.pointer_model:
                 return ('ptr', o[1], 0)
@@ -1520,6 +1542,18 @@ class Interp:
                     v = self.convert(v, ti[0], ti[1])
                 if v is not None or not ti:
                     obj.fields[a['name']] = v
+        # members the constructor does not mention take their default member initialiser
+        for fd in rec.fields:
+            ini = [c_ for c_ in children(fd) if 'kind' in c_]
+            if ini and fd.get('name') not in obj.fields:
+                try:
+                    v = self.expr(ini[-1], {'this': obj, 'locals': {}})
+                    ti = tinfo(fd, self.idx)
+                    if ti and isinstance(v, IV):
+                        v = self.convert(v, ti[0], ti[1])
+                    obj.fields[fd['name']] = v
+                except (AnalysisBroken, NeedSplit):
+                    pass
         if c.body is not None:
             try:
                 self.stmt(c.body, env)
